@@ -61,6 +61,12 @@ class CallGraph:
             for c in fb.closures_of(b):
                 if c.name.count("{closure#") == b.name.count("{closure#") + 1:
                     loc.add(c.name)
+            # ... including the closures of helpers that were spliced into this body (their names hang below the helper)
+            for blk in b.blocks:
+                for st in blk["stmts"]:
+                    r_ = st.get("r") if st.get("k") == "assign" else None
+                    if isinstance(r_, dict) and r_.get("k") == "agg" and r_.get("agg") == "closure" and r_.get("closure") in fb.by_path:
+                        loc.add(fb.by_path[r_["closure"]].name)
             self.local[b.name] = loc
             self.external[b.name] = ext
             self.sites[b.name] = sites
@@ -207,6 +213,8 @@ class CallGraph:
             for c in self.fb.closures_of(b):
                 if c.name.count("{closure#") == b.name.count("{closure#") + 1:
                     st.append(c.name)
+            # closures constructed in this body whose names hang elsewhere (closures of spliced-in helpers)
+            st.extend(n for n in self.local.get(x, ()) if "{closure#" in n and n not in seen)
         return seen, sites
 
     def path_to(self, root, target):
